@@ -150,7 +150,8 @@ def _validate(shape, rows):
                 if ret != all(v for _, _, v in recs):
                     bad.append(f"verdict {ret} although element checks were {[v for _, _, v in recs]}")
                 import re as _re
-                mentioned = {m_ for k, _ in dec for part in k for m_ in _re.findall(r"value/\[\]/(\d+)", str(part))}
+                mentioned = {m_ for k, _ in dec for part in k
+                             for m_ in _re.findall(r"value/\[\]/(\d+)", str(part)) + _re.findall(r"'value', '\[\]', (\d+)", str(part))}
                 checked = {m_ for vl, _, _ in recs for m_ in _re.findall(r"value/\[\]/(\d+)", vl)}
                 if ret is True and mentioned - checked:
                     bad.append(f"element(s) #{sorted(mentioned - checked)} are accepted without being checked against the element type")
